@@ -360,3 +360,53 @@ def trunk_net_reads_its_variables_by_name(S):
         S.forall("same-features-for-permuted-variable-order", Tensor(o1), lambda q: zreal(o1.at(q)) == zreal(o2.at(q)))
     only_x = S.new(POINTS, Tensor(lead(X0.val, 2)), S.new(RN, "x", 2))
     S.ensure_raises("locations-lacking-a-variable-rejected", lambda: S.method(net, "forward", only_x), ["ValueError", "KeyError", "RuntimeError", "AssertionError"])
+
+
+@scenario("C09", [M + "branchnets.ConvBranchNet1D.__init__", M + "branchnets.ConvBranchNet1D.finalize", M + "branchnets.ConvBranchNet1D.forward", BRANCH + "._reshape_multidimensional_output"], configs=["ndisc=3,channels=2,hidden=(2,),neurons=4,d=2"], bounded="3 discretisation points of a 2-component input function, conv net abstract (any map keeping the layout), one hidden layer of width 2, 4 output neurons, output dimension 2; number of functions, weights and values symbolic")
+def conv_branch_net_hands_channels_first_to_the_convolution_and_keeps_function_b_in_block_b(S):
+    """ConvBranchNet1D.forward: the user's convolutional network receives the discretised functions as
+    (function, channel, position) -- entry [b, c, l] is component c of function b at discretisation point l --, its
+    output is brought back to (function, position, channel), flattened per function and sent through the fully
+    connected part; current_out[b, c, k] is feature c*q + k of function b"""
+    from tpv.absdom import abstract_domain
+    from tpv import tshape
+    from tpv.spec import TensorFn
+
+    I = S.I
+    B = S.int("B", 1)
+    xs = S.new(RN, "x", 1)
+    fsp = S.new(FS, abstract_domain(S, "Din", xs).obj, S.new(RN, "f", 2))
+    disc = AbstractSampler(S, "disc", xs, 3)
+    seen = []
+
+    def conv(I_, a, k):
+        seen.append(a[0])
+        # an arbitrary network that keeps (function, channel, position): modelled as the identity on the layout with
+        # an uninterpreted pointwise map (the contract is about what it is GIVEN and where its output goes)
+        g = z3.Function("convmap", z3.RealSort(), z3.RealSort())
+        v = a[0].val
+        return Tensor(STensor(v.shape, lambda idx: g(zreal(v.at(idx))), "real", "conv"))
+
+    net = TensorFn("conv_net", conv)
+    br = S.new(M + "branchnets.ConvBranchNet1D", fsp, disc.obj, net, hidden=(2,))
+    S.method(br, "finalize", S.new(RN, "u", 2), 4)
+    F = S.tensor("F", [B, 3, 2])
+    S.method(br, "forward", S.new(POINTS, F, S.new(RN, "f", 2)))
+    S.ensure("convolution-called-once", len(seen) == 1)
+    if len(seen) != 1:
+        return
+    ci = seen[0].val
+    ok = ci.rank == 3 and ci.shape[1].concrete() == 2 and ci.shape[2].concrete() == 3 and ci.shape[0].size_term() == zint(B)
+    S.ensure("convolution-input-is-functions-by-channels-by-positions", ok)
+    if ok:
+        S.forall("entry-b-c-l-is-component-c-of-function-b-at-point-l", Tensor(ci), lambda q: zreal(ci.at(q)) == zreal(F.val.at([q[0], q[2], q[1]])))
+    oa = S.getattr(br, "current_out").val
+    ok = oa.rank == 3 and [d.concrete() for d in oa.shape[1:]] == [2, 2] and oa.shape[0].size_term() == zint(B)
+    S.ensure("feature-tensor-functions-components-neurons", ok)
+    if not ok:
+        return
+    g = z3.Function("convmap", z3.RealSort(), z3.RealSort())
+    conv_out_back = STensor([core.dim_of(B), Dim([3]), Dim([2])], lambda idx: g(zreal(F.val.at(idx))), "real")
+    flat = Tensor(tshape.reshape(I, conv_out_back, [-1, 6]))
+    feats = S.method(S.getattr(br, "sequential"), "__call__", flat).val
+    S.forall("current-out-b-c-k-is-feature-c-q-plus-k-of-function-b", Tensor(oa), lambda q: z3.And([z3.Implies(z3.And(zint(q[1][0]) == c, zint(q[2][0]) == k), zreal(oa.at(q)) == zreal(feats.at([q[0], (c * 2 + k,)]))) for c in range(2) for k in range(2)]))
